@@ -109,12 +109,17 @@ Faults == {"none", "decode", "outdir", "blocked"}
 Below(d, e) == d = 2 /\ e = 1
 Copy   == {"base", "faulty"}
 
-Hidden(k)  == k[2] = "dot"
+\* A leading dot hides a file from the WALK of an input directory only: a file that
+\* is named explicitly (single-file mode) "yields the named output file" whatever
+\* its name, and the single-file API / stream API know nothing about hidden names.
+DotName(k) == k[2] = "dot"
+HiddenIn(s, k)  == s.mode = "tree" /\ DotName(k)
 InDot(k)   == k[1] = DotDir
-Visible(k) == ~Hidden(k) /\ ~InDot(k)
+VisibleIn(s, k) == ~HiddenIn(s, k) /\ ~InDot(k)
+TreeVisible(k)  == ~DotName(k) /\ ~InDot(k)          \* constant-level form for tree scenarios
 Kinds      == {k \in Dirs \X Names : InDot(k) => k[2] = "a"}
 \* hidden / dot-directory files can be undecodable (binary droppings) but nobody claims their slot
-FaultsOf(k) == IF ~Visible(k) THEN {"none", "decode"}
+FaultsOf(k) == IF ~TreeVisible(k) THEN {"none", "decode"}
                ELSE IF k[1] = 0 THEN {"none", "decode", "outdir"}    \* the output root itself is never blocked
                ELSE Faults
 RECURSIVE UpTo(_)
@@ -123,16 +128,16 @@ Trees      == UpTo(MaxFiles) \ {{}}                  \* every set of 1..MaxFiles
 PreOuts    == IF WithEnv THEN {"absent", "empty", "stale"} ELSE {"absent"}
 ESubs      == IF WithEnv THEN BOOLEAN ELSE {FALSE}
 
-BlockOK(T, g) == \A k, j \in T : (Visible(k) /\ Visible(j) /\ g[k] = "blocked") =>
+BlockOK(T, g) == \A k, j \in T : (TreeVisible(k) /\ TreeVisible(j) /\ g[k] = "blocked") =>
                      /\ k[1] = j[1] => g[j] = "blocked"
                      /\ Below(j[1], k[1]) => g[j] = "blocked"
 FaultMaps(T) == {g \in [T -> Faults] : (\A k \in T : g[k] \in FaultsOf(k)) /\ BlockOK(T, g)}
-\* single-file mode: one visible file in the root; esub = "parent directory of the
+\* single-file mode: one file of ANY name class (a leading dot hides nothing here); esub = "parent of the
 \* named output is missing"; a stale or occupied slot needs the parent to exist
 SingleScenarios ==
   IF ~WithSingle THEN {} ELSE
   {x \in {[mode |-> "single", files |-> {k}, fault |-> (k :> f), pre |-> p, esub |-> s]
-            : k \in {y \in Kinds : y[1] = 0 /\ Visible(y)}, f \in {"none", "decode", "outdir"},
+            : k \in {y \in Kinds : y[1] = 0}, f \in {"none", "decode", "outdir"},
               p \in {"absent", "stale"}, s \in BOOLEAN} :
      x.esub => (x.pre = "absent" /\ \A k \in x.files : x.fault[k] # "outdir")}
 
@@ -143,6 +148,8 @@ VARIABLES scn,     \* the scenario (never changes)
           left,    \* [Copy -> SUBSET files]        files not yet dealt with
           others   \* [Copy -> content]             everything else in the sandbox
 rvars == <<scn, outT, inT, rep, left, others>>
+Hidden(k)  == HiddenIn(scn, k)
+Visible(k) == VisibleIn(scn, k)
 
 \* everything below is a function of the scenario s
 FaultS(s, c, k)  == IF c = "base" THEN "none" ELSE s.fault[k]
@@ -150,7 +157,7 @@ InS(s, c, k)     == IF FaultS(s, c, k) = "decode" THEN <<"bad", k>> ELSE <<"in",
 RefS(s, c, k)    == IF FaultS(s, c, k) = "decode" THEN <<"NA">> ELSE <<"ref", k>>
 PreS(s, c, k)    == IF FaultS(s, c, k) = "outdir" THEN <<"DIR">>
                     ELSE IF FaultS(s, c, k) = "blocked" THEN <<"ABSENT">>   \* nothing can sit below a regular file
-                    ELSE IF s.pre = "stale" /\ Visible(k) THEN <<"stale", k>>
+                    ELSE IF s.pre = "stale" /\ VisibleIn(s, k) THEN <<"stale", k>>
                     ELSE <<"ABSENT">>
 Fault(c, k)  == FaultS(scn, c, k)
 In(c, k)     == InS(scn, c, k)
@@ -179,7 +186,7 @@ Start(s) ==
   /\ scn' = s
   /\ outT' = [c \in Copy |-> [k \in s.files |-> PreS(s, c, k)]]
   /\ inT'  = [c \in Copy |-> [k \in s.files |-> InS(s, c, k)]]
-  /\ left' = [c \in Copy |-> {k \in s.files : ~Hidden(k)}]   \* no action ever touches a hidden file
+  /\ left' = [c \in Copy |-> {k \in s.files : ~HiddenIn(s, k)}]   \* no action ever touches a hidden file
   /\ UNCHANGED <<rep, others>>
 RPick ==
   /\ scn.mode = "none"
